@@ -56,13 +56,33 @@ def d_wire(D):
     return ','.join('%d=%d' % (k, v) for k, v in D)
 
 
-def ev_wire(ev):
-    """event: (kind, D, order, kill) or ('X', code, 'T'|'A', None)"""
+# the world of the model (coq/Crash/Model.v `world`): declared defaults that differ from value 0, machine-file values.
+# An 'E' event edits both (edit_project); an 'M' event brings the machine file native.ini into existence.
+DECL_EDITED = [(2, 1), (4, 1)]               # i: '3' -> '7';  warning_level: '1' -> '2'
+MFILE = [(4, 2), (1, 1)]                     # NATIVE_INI: warning_level='3', c='two'
+MFILE_EDITED = [(4, 1), (1, 2)]              # NATIVE_INI_EDITED: warning_level='2', c='three'
+
+
+def world_at(hist):
+    """the world in which the LAST event of hist happens / in which a command after hist runs (hist may be [])"""
+    edited = any(e[0] == 'E' for e in hist)
+    has_m = any(e[0] == 'M' for e in hist)
+    return (DECL_EDITED if edited else [], (MFILE_EDITED if edited else MFILE) if has_m else [])
+
+
+MODEL_KIND = {'S': 'S', 'N': 'S', 'M': 'S', 'R': 'R', 'Q': 'R', 'W': 'W', 'C': 'C', 'K': 'C'}
+
+
+def ev_wire(ev, world=([], [])):
+    """event: (kind, D, order, kill) or ('X', code, 'T'|'A', None).
+    kinds: S setup, N setup --native-file <pipe>, M setup --native-file native.ini, R reconfigure,
+    Q reconfigure --clearcache, W wipe, C configure, K configure --clearcache"""
     kind, D, order, kill = ev
     if kind == 'X':
         return '\x01'.join(['X', D, order, ''])
-    # 'N' = first setup with a machine file read from a pipe: the model knows no machine files, to it this is a setup
-    return '\x01'.join(['S' if kind in 'NM' else kind, d_wire(D), ','.join(order or []), '' if kill is None else str(kill)])
+    flag = 'T' if kind in 'NMK' else ''
+    return '\x01'.join([MODEL_KIND[kind], d_wire(D), ','.join(order or []), '' if kill is None else str(kill), flag,
+                        d_wire(world[0]), d_wire(world[1])])
 
 
 def cmd_args(kind, D, bdir, src):
@@ -74,6 +94,10 @@ def cmd_args(kind, D, bdir, src):
         return ['setup', bdir, src, '--native-file', os.path.join(src, 'native.ini')] + d_args(D)
     if kind == 'R':
         return ['setup', '--reconfigure', bdir, src] + d_args(D)
+    if kind == 'Q':
+        return ['setup', '--reconfigure', '--clearcache', bdir, src] + d_args(D)
+    if kind == 'K':
+        return ['configure', '--clearcache', bdir] + d_args(D)
     if kind == 'W':
         return ['setup', '--wipe', bdir, src] + d_args(D)
     return ['configure', bdir] + d_args(D)
@@ -100,7 +124,8 @@ class Lab:
         open(os.path.join(self.src, 'subprojects', 'sub', 'meson.build'), 'w').write(SUB_BUILD)
         open(os.path.join(self.src, 'subprojects', 'sub', 'meson.options'), 'w').write(SUB_OPTIONS)
         self.srcs = {}
-        self.nd = 0
+        import itertools
+        self._nd = itertools.count(1)          # next() is atomic: newdir() is called from worker threads
         self.dat_names, self.info_names, self.cinfo = [], [], []
         self.strace_runs = 0
 
@@ -123,8 +148,7 @@ class Lab:
     def newdir(self, area, style='plain'):
         """a fresh 8-BYTE directory name (relocate() needs equal byte lengths).  Hostile styles: a glob
         character class, a blank, a non-ASCII letter - all legal directory names."""
-        self.nd += 1
-        return os.path.join(area, STYLES[style] % self.nd)
+        return os.path.join(area, STYLES[style] % next(self._nd))
 
     # ---- path classes
     def code(self, rel):
@@ -318,6 +342,11 @@ def scenarios(thorough, rng):
     S.append(('edited-defaults/reconfigure', conf + [('E', [], None, None)], ('R', [(1, 1)])))
     S.append(('edited-defaults/configure', conf + [('E', [], None, None)], ('C', [(1, 1)]), 'bracket'))
     S.append(('machine-file-values/wipe', [('M', [(0, 1)], None, None)], ('W', [])))
+    # --wipe WITH a new -D for an option whose declared default changed since the first setup (known finding)
+    S.append(('edited-defaults/wipe-D', conf + [('E', [], None, None)], ('W', [(2, 2)])))
+    # --clearcache forces coredata.dat to be saved even when no value changes
+    S.append(('configured/configure --clearcache -D(same value)', conf, ('K', [(0, 1)])))
+    S.append(('configured/configure --clearcache', conf, ('K', []), 'space'))
     # a directory that a killed --wipe left without coredata.dat but with cmd_line.txt: what a first setup stores and records
     S.append(('killed-wipe(coredata gone)/setup', conf + [('W', [], None, 'core-gone')], ('S', [(1, 2)])))
     if thorough:
@@ -325,6 +354,8 @@ def scenarios(thorough, rng):
         S.append(('machine-file-values-edited/configure', [('M', [(0, 1)], None, None), ('E', [], None, None)], ('C', [(0, 2)])))
         S.append(('edited-defaults/wipe', conf + [('E', [], None, None)], ('W', [])))
         S.append(('configured/configure-same-value', conf, ('C', [(0, 1)])))
+        S.append(('configured+configure/reconfigure --clearcache', conf2, ('Q', [(1, 2)]), 'bracket'))
+        S.append(('machine-file-values/configure --clearcache', [('M', [(0, 1)], None, None)], ('K', [(1, 2)])))
         S.append(('configured/setup-D (already configured: acts as configure)', conf, ('S', [(2, 1)])))
         S.append(('configured+configure/reconfigure', conf2, ('R', [(3, 2), (4, 2)])))
         S.append(('configured+configure/configure', conf2, ('C', [(3, 2), (0, 0)])))
@@ -357,13 +388,23 @@ def random_D(rng, allow_empty=True):
 
 
 def random_scenario(rng, n):
-    hist = [('S', random_D(rng), None, None)]
+    """random history of completed commands (optionally with a machine file, an edit of the project's declared
+    defaults, --clearcache) and a random command to kill"""
+    hist = [(rng.choice('SSM'), random_D(rng), None, None)]
+    edited = False
     for _ in range(rng.randrange(0, 3)):
-        kind = rng.choice('RCW')
-        hist.append((kind, random_D(rng, allow_empty=(kind != 'C')), None, None))
-    kind = rng.choice('RCCWW')
-    D = random_D(rng, allow_empty=(kind != 'C'))
-    name = 'random%d/%s' % (n, ' ; '.join(cmd_text(e[0], e[1]) for e in hist) + ' => ' + cmd_text(kind, D))
+        kind = rng.choice('RCWKQE')
+        if kind == 'E':
+            if edited:
+                continue
+            edited = True
+            hist.append(('E', [], None, None))
+        else:
+            hist.append((kind, random_D(rng, allow_empty=(kind != 'C')), None, None))
+    kind = rng.choice('RCCWKQ')
+    # (--wipe with new -D after an edit is the known finding and has its own scenario)
+    D = [] if (kind == 'W' and edited) else random_D(rng, allow_empty=(kind != 'C'))
+    name = 'random%d/%s' % (n, ' ; '.join(cmd_text(e[0], e[1]) if e[0] != 'E' else 'EDIT' for e in hist) + ' => ' + cmd_text(kind, D))
     return (name, hist, (kind, D), rng.choice(['plain', 'bracket', 'space', 'utf8']))
 
 
@@ -401,7 +442,8 @@ class Runner:
     def __init__(self, ctx, lab):
         self.ctx, self.lab = ctx, lab
         self.bases = {}          # history key -> (dir, wire events)
-        self.hn = 0
+        import itertools
+        self._hn = itertools.count(1)
 
     def build_history(self, hist, style='plain', srctag=''):
         """Apply the events to a fresh directory.  -> (base dir or None, [wire events]) ; cached on prefixes."""
@@ -414,8 +456,7 @@ class Runner:
             return self.bases[key]
         pdir, pw = self.build_history(hist[:-1], style, srctag)
         src = lab.src_for(srctag)
-        self.hn += 1
-        area = lab.area('h%05d' % self.hn)
+        area = lab.area('h%05d' % next(self._hn))
         d = lab.newdir(area, style)
         if pdir is not None:
             T.relocate(pdir, d)
@@ -441,7 +482,7 @@ class Runner:
             r = T.meson(cmd_args(kind, D, d, src), lab.pyc, stdin_text=NATIVE_FILE_TEXT if kind == 'N' else None)
             if r.returncode != 0:
                 raise HarnessError('history command failed: %s\n%s' % (cmd_text(kind, D), (r.stdout + r.stderr)[-800:]))
-            w = pw + [ev_wire((kind, D, order, None))]
+            w = pw + [ev_wire((kind, D, order, None), world_at(hist))]
         else:
             rec = lab.record(pdir, kind, D, area, style, src)
             if kill == 'core-gone':
@@ -456,7 +497,7 @@ class Runner:
             if not d2['hit']:
                 raise HarnessError('kill point missed while building a history')
             d = d2['dir']
-            w = pw + [ev_wire((kind, D, rec['order'] if kind == 'W' else None, kill))]
+            w = pw + [ev_wire((kind, D, rec['order'] if kind == 'W' else None, kill), world_at(hist))]
         self.bases[key] = (d, w)
         return self.bases[key]
 
@@ -526,7 +567,7 @@ def do_replay(ctx):
         print('                 ', t)
     print('values reported:', {k: VALUES[k][v] if v < len(VALUES[k]) else v for k, v in (post['intro_values'] or {}).items()} if f['rc'] == 0 else '-')
     if ctx.build('Props/C09.v', 'Crash/Extract.v', 'C09'):
-        m = ctx.run_model([('crash', [lab.env_wire(), '\x02'.join(hw), ev_wire((kind, D, rc['order'] if kind == 'W' else None, None)),
+        m = ctx.run_model([('crash', [lab.env_wire(), '\x02'.join(hw), ev_wire((kind, D, rc['order'] if kind == 'W' else None, None), world_at(hist)),
                                       str(pts[0]['k']), KEYS_WIRE])])[0]
         print('model          :', m)
     ctx.cleanup()
@@ -558,6 +599,15 @@ def run(ctx):
 
     scs = scenarios(thorough, rng)
     jobs = []          # one per scenario
+    plan = []
+    for n, sc in enumerate(scs):
+        hist = sc[1]
+        style = sc[3] if len(sc) > 3 else 'plain'
+        srctag = ('p%03d' % n) if any(e[0] in 'ME' for e in hist) else ''
+        plan.append((hist, style, srctag))
+    for L in range(1, max([len(h) for h, _, _ in plan] + [0]) + 1):
+        todo = {style + '|' + srctag + '|' + json.dumps(h[:L]): (h[:L], style, srctag) for h, style, srctag in plan if len(h) >= L}
+        pmap(lambda t: runner.build_history(*t), list(todo.values()))
     for sc in scs:
         sid, hist, (kind, D) = sc[:3]
         style = sc[3] if len(sc) > 3 else 'plain'
@@ -566,7 +616,7 @@ def run(ctx):
         base, hw = runner.build_history(hist, style, srctag)
         jobs.append({'id': sid + ('' if style == 'plain' else ' [%s directory name]' % style), 'hist': hist, 'hw': hw, 'base': base,
                      'kind': kind, 'D': D, 'style': style, 'srctag': srctag, 'src': lab.src_for(srctag),
-                     'unmodelled_values': bool(srctag)})
+                     'unmodelled_values': False})
     ctx.extra['history_build_s'] = round(time.time() - t0, 1)
 
     # --- recordings (parallel)
@@ -580,7 +630,7 @@ def run(ctx):
     kills = []
     for jb in jobs:
         rec = jb['rec']
-        jb['cmd_wire'] = ev_wire((jb['kind'], jb['D'], rec['order'] if jb['kind'] == 'W' else None, None))
+        jb['cmd_wire'] = ev_wire((jb['kind'], jb['D'], rec['order'] if jb['kind'] == 'W' else None, None), world_at(jb['hist']))
         model_cases.append(('ops', [env_w, '\x02'.join(jb['hw']), jb['cmd_wire']]))
         model_meta.append(('ops', jb, None))
         pts = select_points(rec['points'], thorough)
@@ -595,7 +645,7 @@ def run(ctx):
                 pts = [p for n, p in enumerate(pts) if p['j'] == 0 or n % 5 == 0]
             if jb['id'].startswith('random'):
                 pts = [p for n, p in enumerate(pts) if p['j'] == 0 or n % 3 == 0]
-            if jb['id'].startswith('killed-configure(cmd_line updated)/wipe-D') and 'Uc' in rec['tokens']:
+            if (jb['id'].startswith('killed-configure(cmd_line updated)/wipe-D') or jb['id'].startswith('edited-defaults/wipe-D')) and 'Uc' in rec['tokens']:
                 # quick tier: only the window around the deletion of coredata.dat
                 kc = rec['tokens'].index('Uc')
                 pts = [p for p in pts if p['j'] == 0 or (p['state_file'] and kc - 1 <= p['k'] <= kc + 3)]
@@ -667,7 +717,7 @@ def run(ctx):
     for x, a, f, b in zip(dmg, dpre, dfol, dpost):
         obs = {'what': x['id'], 'state': a['state'], 'followup': f['followup'], 'cls': f['cls'],
                'values': b['intro_values'] if f['rc'] == 0 else None, 'post': _fix_ninja(b['state']) if f['rc'] == 0 else None}
-        model_cases.append(('state', [env_w, '\x02'.join(x['hw']), KEYS_WIRE]))
+        model_cases.append(('state', [env_w, '\x02'.join(x['hw']), KEYS_WIRE, '', '']))
         model_meta.append(('state', x, obs))
 
     # --- model vs implementation
@@ -752,6 +802,11 @@ def run(ctx):
             core_gone = all(' c=A ' in (' ' + st_of.get(x['j'], '') + ' ') for x in fs)
             if kind == 'neither-old-nor-new' and earlier_kill and jb['kind'] == 'W' and jb['D'] and agrees:
                 ident = 'C09:neither-old-nor-new:wipe-with-options-after-a-killed-command'
+            elif kind == 'neither-old-nor-new' and jb['kind'] == 'W' and jb['D'] and agrees and core_gone \
+                    and any(e[0] == 'E' for e in jb['hist']) and key in [KEYS[k] for k, _ in jb['D']]:
+                # the same family without any kill: the declared default of an option the wipe sets changed after the
+                # first setup (model: C09_old_or_new_after_edit_refuted)
+                ident = 'C09:neither-old-nor-new:wipe-with-options-after-the-declared-default-changed'
             elif kind == 'neither-old-nor-new' and jb['kind'] == 'W' and any(e[0] == 'M' for e in jb['hist']) and core_gone \
                     and key in ('c', 'warning_level'):
                 ident = 'C09:neither-old-nor-new:machine-file-not-applied-by-setup-after-a-killed-wipe'
